@@ -84,7 +84,7 @@ def prop(case, rec):
     # real generator output for the small levels
     level_sets = {}
     opt = Optimizer(max_length=4)
-    for L in range(0, 7):
+    for L in range(0, 13):          # up to and beyond the level (10) of initial n-grams never seen at the start of a password
         if omen_ref.count_level(gm, L) > 20000 or omen_ref.search_space(gm, L, cap=200000) > 200000:
             continue
         mc = MarkovCracker(g.omen_grammar, L, opt)
